@@ -279,6 +279,12 @@ func c13FwdCheck(c c13Fwd) vfResult {
 			r.Err = fmt.Errorf("%s table/stream at limit %d (len %d, second line ends at %d): want %s, got %s; doc %s", c.Kind, L, len(doc), c.Second, want, vfChainStr(m), vfQ(doc))
 			return r
 		}
+		if L%5 == 0 || int(L) >= len(doc) {
+			if err := vfRoutes(doc, L, m); err != nil {
+				r.Err = fmt.Errorf("%s at limit %d: %v; doc %s", c.Kind, L, err, vfQ(doc))
+				return r
+			}
+		}
 	}
 	r.Hash = vfHash(doc)
 	return r
